@@ -77,6 +77,10 @@ CLAIMED = {
   "Kernel check, decided symbolically over the real index code with model segments: (1) the sequential offline writer (WriterOffline.Batch/doMerge/Close, OpenOfflineWriter) for every number of batches incl. zero, batch size and merge fan-in leaves exactly one snapshot naming one segment with exactly the inserted documents, removes every intermediate item, closes every handle, and opens with the ordinary reader; (2) term postings through the real Snapshot.PostingsIterator / postingsIterator.Next/Advance / segmentIndexAndLocalDocNumFromGlobal are identical, mapped back to logical documents, for every layout of the same documents over 1-3 segments with pending deletions, under any Next/Advance driver; (3) the query optimisations (optimizeConjunction, optimizeConjunctionUnadorned, optimizeDisjunctionUnadorned with the real unadorned iterators) return the documents of the plain evaluation for every layout, with and without 1-hit encoding, and never modify a segment's own postings.",
   "Bounds: <= 3 batches x <= 2 docs (5 thorough), <= 4 (5) documents over <= 3 segments, <= 3 terms. This is a kernel of the property: model segments/postings stand for ice (the OptimizablePostingsIterator contract is modelled as ice implements it), so reopen of real directories, Backup/restore, ice v1 vs v2, in-memory vs disk, MultiSearch merging, aggregations across layouts (C16 decides them per match list) and score equality (the listed known finding about merged segments lives in the bundled ice merger) are outside. Index order of documents is layout dependent (merge rounds reorder), so only multisets are compared.",
   "DESIGN.md section 5 C08"),
+ "C18": (
+  "Narrow subset, decided symbolically: the byte/rune-loop tokenizers (character tokenizer with an arbitrary rune predicate, letter, whitespace, single-token) on every byte string up to the stated length incl. invalid UTF-8 are total, deterministic, give 0 <= start <= end <= len(input), term = input[start:end] and non-negative position increments; the configurable rune-loop filters (length, truncate, ngram, edge-ngram, reverse, apostrophe, unique) never panic on any token bytes and keep offsets and increments valid.",
+  "Bounds: inputs <= 4 bytes (5 thorough) for tokenizers, <= 3 (4) for filters; fixed parameter values; letter/whitespace restricted to U+0000-U+00FF. Outside — most of the property: the Unicode segmenter automaton, regexp tokenizer/char filter, HTML and ASCII-folding char filters, stemmers, stop/elision/compound/dictionary/normalisation filters, the 24 language analyzers, longer inputs, and the index-time/query-time agreement through a real index.",
+  "DESIGN.md section 5 C18"),
 }
 
 NA = {
